@@ -4,6 +4,7 @@
 package inst
 
 import (
+	"fmt"
 	"io"
 	"math/big"
 	"unsafe"
@@ -183,6 +184,9 @@ type Field interface {
 	NewElement(v uint64) E
 	One() E
 	NewVec(n int) Vec
+	// NewVecAt views mem (at least n*sizeof(element) bytes, suitably aligned, outside the Go heap or pinned by the
+	// caller) as a vector of n elements; used to place operands next to guard pages.
+	NewVecAt(mem []byte, n int) Vec
 	Butterfly(a, b E)
 	HasMul2ExpNegN() bool
 	Hash(msg, dst []byte, count int) ([]E, error)
@@ -241,6 +245,14 @@ func (f *field[T, V, PT, PV]) NewElement(v uint64) E { e := f.fn.NewElement(v); 
 func (f *field[T, V, PT, PV]) One() E                { e := f.fn.One(); return f.wrap(&e) }
 func (f *field[T, V, PT, PV]) NewVec(n int) Vec {
 	v := make(V, n)
+	return &vec[T, V, PT, PV]{f, &v}
+}
+func (f *field[T, V, PT, PV]) NewVecAt(mem []byte, n int) Vec {
+	var zero T
+	if need := n * int(unsafe.Sizeof(zero)); len(mem) < need {
+		panic(fmt.Sprintf("inst: NewVecAt: %d bytes for %d elements", len(mem), n))
+	}
+	v := V(unsafe.Slice((*T)(unsafe.Pointer(unsafe.SliceData(mem))), n))
 	return &vec[T, V, PT, PV]{f, &v}
 }
 func (f *field[T, V, PT, PV]) Butterfly(a, b E)     { f.fn.Butterfly(f.un(a), f.un(b)) }
